@@ -34,8 +34,10 @@ SIMS = ("elastic_static", "elastic_dynamic", "thermal")
 RESULT_NAMES = {"elastic_static": ["displacement", "Stress"], "elastic_dynamic": ["displacement", "speed", "accel"], "thermal": ["thermal", "thermalDot"]}
 
 
-def second_mesh():
+def second_mesh(k=0):
+    """k-th replacement mesh: every one has its own coordinates (so restoring the wrong one of two replacement meshes is visible)"""
     X = np.array([[0.5, -0.25, 0], [1.75, -0.25, 0], [2.0, 0.5, 0], [0.75, 0.5, 0], [1.5, 1.25, 0]])
+    X = X * np.array([1.0 + 0.25 * k, 1.0 + 0.125 * (k % 3), 1.0])
     return simlib.mesh_from_arrays([("TRI3", [[0, 1, 2], [0, 2, 3], [3, 2, 4]]), ("SEG2", [[0, 1], [1, 2], [2, 4], [4, 3], [3, 0]])], X)
 
 
@@ -82,6 +84,7 @@ class Scenario:
         self.cmp = []  # (label, got, want, key)
         self.nsolve = 0
         self.nmove = 0
+        self.nmesh = 0
         self.folders = {"A": os.path.join(tmp, "A"), "B": os.path.join(tmp, "B")}
         self.crash = None
 
@@ -174,7 +177,8 @@ class Scenario:
             self.expect(f"Result(name, iter={i}) leaves the live {f} unchanged", after[f], before[f], f"Result(name, iter=i) leaves the live state at iteration i ({f})")
 
     def op_newmesh(self):
-        self.s.mesh = second_mesh()
+        self.s.mesh = second_mesh(self.nmesh)
+        self.nmesh += 1
 
     def op_move(self):
         k = self.nmove
@@ -246,7 +250,14 @@ class Scenario:
             for op in ops:
                 name, arg = (op.split(":") + [None])[:2]
                 try:
-                    if name == "solve":
+                    if name == "S":  # macro: solve + save
+                        self.op_solve()
+                        self.op_save()
+                    elif name == "N":  # macro: replace the mesh, solve, save
+                        self.op_newmesh()
+                        self.op_solve()
+                        self.op_save()
+                    elif name == "solve":
                         self.op_solve()
                     elif name == "save":
                         self.op_save()
@@ -365,9 +376,9 @@ ALPHABET = ["solve", "save", "folder:", "folder:A", "folder:B", "set_iter:first"
 
 def useful(seq):
     """drop sequences that cannot exercise anything: no save, or restores before the first save"""
-    if "save" not in seq:
+    if "save" not in seq and "S" not in seq:
         return False
-    first_save = seq.index("save")
+    first_save = seq.index("save") if "save" in seq else seq.index("S")
     if any(o.split(":")[0] in ("set_iter", "get", "result") for o in seq[:first_save]):
         return False
     # consecutive duplicates of idempotent operations
@@ -400,6 +411,17 @@ def configs(tier):
             full = ["solve"] + [rng.choice(ALPHABET + ["save", "solve", "set_iter:mid"]) for _ in range(n)]
             if useful(full):
                 seqs.append(full)
+        # several meshes in one history: macro-operations S (solve+save), N (replace mesh+solve+save), restores of the first / last / middle iteration
+        macro = ["N", "set_iter:first", "set_iter:last"] if tier == "quick" else ["S", "N", "set_iter:first", "set_iter:last", "set_iter:mid", "folder:A"]
+        lens = (5,) if tier == "quick" else (4, 5, 6)
+        if sim == "elastic_static" or tier == "thorough":
+            for n in lens:
+                for seq in itertools.product(macro, repeat=n):
+                    if seq.count("N") < 2 or any(a == b and a != "N" and a != "S" for a, b in zip(seq, seq[1:])):
+                        continue
+                    if tier == "thorough" and n == 6 and sim != "elastic_static" and rng.random() > 0.2:
+                        continue
+                    seqs.append(["S"] + list(seq))
         for seq in seqs:
             out.append({"sim": sim, "ops": seq})
     return out
